@@ -111,6 +111,9 @@ func mkCompressedCert(s *ccScn, certMsg []byte) ([]byte, int) {
 	case "flip":
 		comp = append([]byte{}, comp...)
 		comp[len(comp)/2] ^= 0x01
+	case "trailing":
+		// a complete stream followed by bytes that do not belong to it
+		comp = append(append([]byte{}, comp...), 0x21, 0x43, 0x65, 0x87, 0xa9, 0xcb, 0xed, 0x0f)
 	}
 	ul := len(body) + s.DeclDelta
 	if s.DeclHuge {
@@ -134,14 +137,25 @@ func alertOf(err error) int {
 
 func init() {
 	hlib.Register("certcomp", func(in []byte, out *hlib.Out) error {
-		var req struct{ Scenarios []json.RawMessage }
+		var req struct {
+			Scenarios  []json.RawMessage
+			Sequential bool // run the scenarios one after the other in the given order (state carried across handshakes shows up)
+		}
 		if err := json.Unmarshal(in, &req); err != nil {
 			return err
 		}
 		pk := hlib.NewPKI()
 		leaf := pk.Std("ecdsa", "example.com")
 		res := make([][]map[string]any, len(req.Scenarios))
-		hlib.Parallel(len(req.Scenarios), func(i int) {
+		run := hlib.Parallel
+		if req.Sequential {
+			run = func(n int, fn func(i int)) {
+				for i := 0; i < n; i++ {
+					fn(i)
+				}
+			}
+		}
+		run(len(req.Scenarios), func(i int) {
 			var s ccScn
 			if err := json.Unmarshal(req.Scenarios[i], &s); err != nil {
 				res[i] = []map[string]any{{"ev": "Error", "err": err.Error()}}
